@@ -26,6 +26,7 @@
 #include <cstdlib>
 #include <cstring>
 #include <cxxabi.h>
+#include <locale>
 #include <fcntl.h>
 #include <regex.h>
 #include <typeinfo>
@@ -355,6 +356,14 @@ bool sameDouble(double a, double b)
     return a == b; // -0.0 == 0.0 is accepted; NaN never is
 }
 
+// <cn type="e-notation">m<sep/>e</cn> denotes m x 10^e: true when both parts are fine and the number is outside double.
+bool combinedOverflows(const std::string &m, const std::string &e)
+{
+    errno = 0;
+    double v = strtod((m + "e" + e).c_str(), nullptr);
+    return errno == ERANGE && std::isinf(v);
+}
+
 // Judges one (string, position) observation. Class label parts are returned through refV / libV.
 void judge(const std::string &raw, int p, const Obs &o, std::vector<Failure> &fails, std::string &refV, std::string &libV, std::map<std::string, long> &notes)
 {
@@ -383,12 +392,8 @@ void judge(const std::string &raw, int p, const Obs &o, std::vector<Failure> &fa
     }
     libV = issues > 0 ? "issue" : "silent";
 
-    // Positions where an empty attribute cannot be told from an absent one in the object model: not judged.
-    if ((p == P_PREFIX || p == P_INIT) && raw.empty()) {
-        refV = "empty=absent";
-        ++notes["not_judged:empty-attribute-equals-absent:" + pos];
-        return;
-    }
+    // The empty string is judged like every other string, also where the object model cannot tell an empty attribute
+    // from an absent one (prefix, initial_value): it is numeric text in a numeric position and not a number.
 
     if (wantInt) {
         if (!r.integer) {
@@ -402,6 +407,14 @@ void judge(const std::string &raw, int p, const Obs &o, std::vector<Failure> &fa
             refV = "integer-out-of-range";
             if (issues == 0) {
                 fails.push_back({"C16.range-unreported|" + pos, "integer outside int but no issue cites the rule: " + where});
+            }
+            return;
+        }
+        if (p == P_CN_EEXP && combinedOverflows("1", t)) {
+            // significand and exponent are fine one by one, the number they denote is outside double
+            refV = "integer-combined-overflow";
+            if (issues == 0) {
+                fails.push_back({"C16.range-unreported|" + pos + "|combined-value", "1 x 10^" + t + " is outside double but no issue cites the rule: " + where});
             }
             return;
         }
@@ -440,14 +453,18 @@ void judge(const std::string &raw, int p, const Obs &o, std::vector<Failure> &fa
         ++notes["not_judged:real-but-not-basic-in-cn:" + pos];
         return;
     }
+    if (p == P_CN_MANT && r.basic && !r.dRange && combinedOverflows(t, "1")) {
+        refV = "real-combined-overflow";
+        if (issues == 0) {
+            fails.push_back({"C16.range-unreported|" + pos + "|combined-value", "the significand times 10^1 is outside double but no issue cites the rule: " + where});
+        }
+        return;
+    }
     if (r.dRange) {
         refV = r.dOverflow ? "real-overflow" : "real-underflow";
-        if (p == P_INIT) {
-            // the text is kept as text; no conversion happens in Parser/Validator
-            ++notes["not_judged:out-of-range-initial-value-kept-as-text"];
-            if (issues == 0 && o.s != t) {
-                fails.push_back({"C16.value|" + pos, "initial value read back " + show(o.s) + " for " + where});
-            }
+        if (p == P_INIT && issues == 0 && o.s != t) {
+            // the text is kept as text by the object model
+            fails.push_back({"C16.value|" + pos, "initial value read back " + show(o.s) + " for " + where});
             return;
         }
         if (issues > 0) {
@@ -675,11 +692,16 @@ std::string cnElement(const std::string &s, int p)
     }
 }
 
-// 0 = must be accepted, 1 = must be rejected, 2 = not judged (see judge())
+// 0 = must be accepted, 1 = must be rejected, 2 = not judged (see judge()), 3 = both parts fine but the combined e-notation
+// value overflows: must be rejected; kept apart so that a library that accepts them all still gives a conclusive block
 int cnExpectation(const std::string &raw, int p)
 {
-    const Ref r = reference(strip(raw));
+    const std::string t = strip(raw);
+    const Ref r = reference(t);
     if (p == P_CN_EEXP) {
+        if (r.integer && !r.intOut && combinedOverflows("1", t)) {
+            return 3;
+        }
         return r.integer && !r.intOut ? 0 : 1;
     }
     if (!r.real) {
@@ -687,6 +709,9 @@ int cnExpectation(const std::string &raw, int p)
     }
     if (!r.basic || (r.dRange && !r.dOverflow)) {
         return 2;
+    }
+    if (p == P_CN_MANT && !r.dRange && combinedOverflows(t, "1")) {
+        return 3;
     }
     return r.dRange ? 1 : 0;
 }
@@ -749,7 +774,7 @@ void observeCnBatch(Chunk &ch, const std::vector<CnMember> &members, int expecta
 void observeChunk(Chunk &ch, bool batchCn)
 {
     ch.obs.assign(ch.strings.size(), std::array<Obs, NPOS>());
-    std::vector<CnMember> group[3];
+    std::vector<CnMember> group[4];
     for (size_t k = 0; k < ch.strings.size(); ++k) {
         for (int p = 0; p < NPOS; ++p) {
             if ((ch.masks[k] & (1u << p)) == 0) {
@@ -762,7 +787,7 @@ void observeChunk(Chunk &ch, bool batchCn)
             }
         }
     }
-    for (int e = 0; e < 3; ++e) {
+    for (int e = 0; e < 4; ++e) {
         observeCnBatch(ch, group[e], e);
     }
 }
@@ -903,6 +928,34 @@ void fetch(uint64_t idx, const std::string &s, unsigned mask, Obs out[NPOS], Cas
     observeAll(s, mask, out, c);
 }
 
+// ------------------------------------------------------------------------------------------------ global C++ locale
+// What an application on a de_DE / fr_FR system gets after std::locale::global(std::locale("")): decimal comma and
+// digit grouping. Only the C locale is installed here, so an equivalent numpunct facet is installed instead (an unnamed
+// locale: setlocale() and therefore strtod are untouched). Number *output* of the library must not follow it.
+struct CommaGrouping: std::numpunct<char>
+{
+    char do_decimal_point() const override { return ','; }
+    char do_thousands_sep() const override { return '.'; }
+    std::string do_grouping() const override { return "\3"; }
+};
+struct GlobalLocaleGuard
+{
+    bool on;
+    explicit GlobalLocaleGuard(bool install)
+        : on(install)
+    {
+        if (on) {
+            std::locale::global(std::locale(std::locale::classic(), new CommaGrouping));
+        }
+    }
+    ~GlobalLocaleGuard()
+    {
+        if (on) {
+            std::locale::global(std::locale::classic());
+        }
+    }
+};
+
 // ------------------------------------------------------------------------------------------------ history
 // Recognition must be a function of the text. Besides the fresh-state observation (phase A) a case may carry a *history*,
 // chosen by its own tape so that a replay in a fresh process reproduces it:
@@ -919,8 +972,8 @@ struct HistoryPlan
     unsigned maskB = 0; // positions observed again
 };
 const char *const HISTORY_CLASS[3] = {"none", "range-error-before", "same-document-range-error"};
-const int N_HISTORY = 9, N_HISTORY_CHEAP = 6; // the first six need no MathML block
-const char *const HISTORY_NAME[N_HISTORY] = {"exponent-overflow", "multiplier-underflow", "order-huge-integer", "prefix-huge-integer", "printer-subnormal-reparsed", "multiplier-overflow+prefix-beyond-int",
+const int N_HISTORY = 10, N_HISTORY_CHEAP = 7; // the first seven need no MathML block
+const char *const HISTORY_NAME[N_HISTORY] = {"exponent-overflow", "multiplier-underflow", "order-huge-integer", "prefix-huge-integer", "printer-subnormal-reparsed", "multiplier-overflow+prefix-beyond-int", "global-numpunct-locale",
                                              "cn-overflow", "cn-e-notation-exponent-huge", "analyser-generator-tiny-initial-value"};
 
 std::string historyLabel(const HistoryPlan &h)
@@ -980,8 +1033,12 @@ void runHistoryEntry(int e, std::vector<Failure> &fails)
             break;
         }
         case 5: parseAndValidate(std::string(HDR) + " <units name=\"h\"><unit units=\"second\" multiplier=\"-1e999\"/><unit units=\"metre\" prefix=\"2147483648\"/></units>\n</model>\n"); break;
-        case 6: parseAndValidate(std::string(HDR) + " <component name=\"c\"><variable name=\"v\" units=\"dimensionless\"/>" + MATH_OPEN + "<cn cellml:units=\"dimensionless\">1" + big + "</cn></apply></math></component>\n</model>\n"); break;
-        case 7: parseAndValidate(std::string(HDR) + " <component name=\"c\"><variable name=\"v\" units=\"dimensionless\"/>" + MATH_OPEN + "<cn cellml:units=\"dimensionless\" type=\"e-notation\">1<sep/>99999999999</cn></apply></math></component>\n</model>\n"); break;
+        case 6:
+            // stays in force while the placements are observed again; observePhaseB restores the classic locale
+            std::locale::global(std::locale(std::locale::classic(), new CommaGrouping));
+            break;
+        case 7: parseAndValidate(std::string(HDR) + " <component name=\"c\"><variable name=\"v\" units=\"dimensionless\"/>" + MATH_OPEN + "<cn cellml:units=\"dimensionless\">1" + big + "</cn></apply></math></component>\n</model>\n"); break;
+        case 8: parseAndValidate(std::string(HDR) + " <component name=\"c\"><variable name=\"v\" units=\"dimensionless\"/>" + MATH_OPEN + "<cn cellml:units=\"dimensionless\" type=\"e-notation\">1<sep/>99999999999</cn></apply></math></component>\n</model>\n"); break;
         default:
             parseAndValidate(std::string(HDR) + " <component name=\"c\"><variable name=\"t\" units=\"dimensionless\"/><variable name=\"x\" units=\"dimensionless\" initial_value=\"1e-320\"/>"
                                                 "<math xmlns=\"http://www.w3.org/1998/Math/MathML\" xmlns:cellml=\"http://www.cellml.org/cellml/2.0#\"><apply><eq/><apply><diff/><bvar><ci>t</ci></bvar><ci>x</ci></apply>"
@@ -1036,6 +1093,7 @@ void observePhaseB(const std::string &s, const HistoryPlan &h, Observed &r)
             r.b[p] = observe(s, p, h.cls == 2 ? h.aug : 0);
         }
     }
+    std::locale::global(std::locale::classic());
     gFreshState = true;
 }
 
@@ -1285,6 +1343,11 @@ void stringCase(Case &c, const std::string &kind, const std::string &s, bool exh
             all += "\n  " + f.sig + " :: " + f.msg;
         }
         c.fail(chosen->sig, chosen->msg + "\nall failing positions of this string:" + all);
+        for (const auto &f : fails) {
+            if (&f != chosen) {
+                c.alsoFailed.push_back({f.sig, f.msg}); // the driver counts listed ones and promotes an unlisted one
+            }
+        }
     }
 }
 
@@ -1298,7 +1361,7 @@ HistoryPlan genHistory(Src &src, size_t len)
     }
     h.cls = static_cast<int>(src.below(3));
     if (h.cls == 1) {
-        // values 0..8 name the catalogue entry, 9..11 the first three again (entries with a MathML block stay at a quarter)
+        // values 0..9 name the catalogue entry, 10..12 the first three again (entries with a MathML block stay at a quarter)
         auto entry = [&](uint64_t radix) {
             uint64_t v = src.below(radix);
             return static_cast<int>(v < static_cast<uint64_t>(N_HISTORY) ? v : v - static_cast<uint64_t>(N_HISTORY));
@@ -1334,7 +1397,7 @@ const std::vector<double> &printerTable()
                 t.push_back(m * std::pow(10.0, e));
             }
         }
-        const double extra[] = {0.1, 1.0 / 3.0, -2.0 / 3.0, 3.141592653589793, 1e15 + 0.3, 123456789012345.0, 1234567890123456.0, 0.5, 2.0, -3.0, 1e22, 1e23, 2.2250738585072014e-308, 4.9406564584124654e-324, 1e-310, 1.7976931348623157e308, 1.0e308, -1.7e308, 1.0000000000000002, 0.99999999999999989};
+        const double extra[] = {0.1, 1.0 / 3.0, -2.0 / 3.0, 3.141592653589793, 1e15 + 0.3, 123456789012345.0, 1234567890123456.0, 0.5, 2.0, -3.0, 1e22, 1e23, 2.2250738585072014e-308, 4.9406564584124654e-324, 1e-310, 1.7976931348623157e308, 1.0e308, -1.7e308, 1.0000000000000002, 0.99999999999999989, HUGE_VAL, -HUGE_VAL, std::nan("")};
         for (double x : extra) {
             t.push_back(x);
         }
@@ -1356,10 +1419,13 @@ std::string fmt15(double v)
 
 const char *const TARGET_NAME[3] = {"unit@exponent", "unit@multiplier", "reset@order"};
 
-void printerCase(Case &c, const std::string &kind, int target, double value, int ivalue)
+void printerCase(Case &c, const std::string &kind, int target, double value, int ivalue, bool facet)
 {
     xmlKeepBlanksDefault(1);
     errno = 0;
+    GlobalLocaleGuard localeGuard(facet); // "history": the application installed a comma/grouping locale before printing
+    const std::string loc = facet ? "|global-locale" : "";
+    const bool nonFinite = target != 2 && !std::isfinite(value);
     const std::string tn = TARGET_NAME[target];
     // Magnitude class. What the 15-significant-digit text of the value does in strtod separates the two ends of the
     // double range where a 15-digit decimal cannot come back: it rounds above DBL_MAX, or it is (or rounds to) a
@@ -1371,13 +1437,15 @@ void printerCase(Case &c, const std::string &kind, int target, double value, int
         errno = 0;
         double back = strtod(b15, nullptr);
         bool erange = errno == ERANGE;
-        magnitude = value == 0.0 ? "zero" : (erange && std::isinf(back) ? "rounds-above-max" : (erange || std::fpclassify(value) == FP_SUBNORMAL ? "subnormal" : (std::fabs(value) >= 1e15 || std::fabs(value) < 1e-4 ? "scientific" : "fixed")));
+        magnitude = nonFinite ? (std::isnan(value) ? "nan" : "inf") : value == 0.0 ? "zero" : (erange && std::isinf(back) ? "rounds-above-max" : (erange || std::fpclassify(value) == FP_SUBNORMAL ? "subnormal" : (std::fabs(value) >= 1e15 || std::fabs(value) < 1e-4 ? "scientific" : "fixed")));
     }
     c.text = "printer leg (" + kind + "): " + tn + " = " + (target == 2 ? std::to_string(ivalue) : fmt17(value)) + " [" + magnitude + "]";
     c.hash = hashStr(c.text);
     c.nontrivial = true;
     c.cls("kind:" + kind);
     c.cls("printer:" + tn + ":" + magnitude);
+    c.cls(facet ? "printer-locale:numpunct-facet" : "printer-locale:classic");
+    c.text += facet ? " under a global C++ locale with decimal comma and digit grouping" : "";
     c.count("printer_round_trips");
     std::string stage = "build";
     try {
@@ -1401,10 +1469,26 @@ void printerCase(Case &c, const std::string &kind, int target, double value, int
             cmp->addReset(r);
             m->addComponent(cmp);
         }
+        bool validatorCites = false;
+        if (nonFinite) {
+            // Not a number the grammar can write: the validator has to say so (then nothing is claimed about the text),
+            // otherwise the library prints, from a model it calls valid, a document it rejects itself.
+            stage = "Validator";
+            auto validator = Validator::create();
+            validator->validateModel(m);
+            int cites = 0, others = 0;
+            countIssues(validator, target == 0 ? Issue::ReferenceRule::UNIT_ATTRIBUTE_EXPONENT_VALUE : Issue::ReferenceRule::UNIT_ATTRIBUTE_MULTIPLIER_VALUE, cites, others);
+            validatorCites = cites > 0;
+            c.cls(validatorCites ? "printer-nonfinite:reported-by-validator" : "printer-nonfinite:validator-silent");
+        }
         stage = "Printer";
         auto printer = Printer::create();
         std::string text = printer->printModel(m);
-        VP_CHECK(c, !text.empty(), "C16.printer-empty|" + tn, "printModel returned an empty string; issues: " + dumpIssues(printer));
+        if (nonFinite && validatorCites) {
+            c.text += "\n(validator reports the non-finite value)\n" + text;
+            return;
+        }
+        VP_CHECK(c, !text.empty(), "C16.printer-empty|" + tn + loc, "printModel returned an empty string; issues: " + dumpIssues(printer));
         c.text += "\n" + text;
         stage = "Parser";
         auto parser = Parser::create(true);
@@ -1412,21 +1496,90 @@ void printerCase(Case &c, const std::string &kind, int target, double value, int
         VP_CHECK(c, m2 != nullptr, "C16.printer-reparse-null|" + tn, dumpIssues(parser));
         int ruleIssues = 0, other = 0;
         countIssues(parser, target == 0 ? Issue::ReferenceRule::UNIT_ATTRIBUTE_EXPONENT_VALUE : (target == 1 ? Issue::ReferenceRule::UNIT_ATTRIBUTE_MULTIPLIER_VALUE : Issue::ReferenceRule::RESET_ORDER_VALUE), ruleIssues, other);
-        VP_CHECK(c, ruleIssues == 0, "C16.printer-roundtrip|" + tn + "|" + magnitude + "|rejected-on-reparse", "the strict parser rejects the number the printer wrote: " + dumpIssues(parser) + "\n" + text);
+        if (nonFinite) {
+            VP_CHECK(c, ruleIssues == 0, "C16.nonfinite-unreported|" + tn + "|" + magnitude + loc, "the validator accepts the " + magnitude + " value silently, the printer writes it and the strict parser rejects the printed document: " + dumpIssues(parser) + "\n" + text);
+        }
+        VP_CHECK(c, ruleIssues == 0, "C16.printer-roundtrip|" + tn + "|" + magnitude + "|rejected-on-reparse" + loc, "the strict parser rejects the number the printer wrote: " + dumpIssues(parser) + "\n" + text);
         if (target < 2) {
             auto u = m2->units("u");
             VP_CHECK(c, u != nullptr && u->unitCount() == 1, "C16.harness|printer|units-lost", text);
             double back = target == 0 ? u->unitAttributeExponent(0) : u->unitAttributeMultiplier(0);
-            VP_CHECK(c, fmt15(back) == fmt15(value), "C16.printer-roundtrip|" + tn + "|" + magnitude + "|value", "set " << fmt17(value) << ", read back " << fmt17(back) << " (15 significant digits: " << fmt15(value) << " vs " << fmt15(back) << ")\n"
+            VP_CHECK(c, fmt15(back) == fmt15(value), "C16.printer-roundtrip|" + tn + "|" + magnitude + "|value" + loc, "set " << fmt17(value) << ", read back " << fmt17(back) << " (15 significant digits: " << fmt15(value) << " vs " << fmt15(back) << ")\n"
                                                                                                                                << text);
         } else {
             auto cmp = m2->component("c");
             VP_CHECK(c, cmp != nullptr && cmp->resetCount() == 1, "C16.harness|printer|reset-lost", text);
-            VP_CHECK(c, cmp->reset(0)->isOrderSet() && cmp->reset(0)->order() == ivalue, "C16.printer-roundtrip|" + tn + "|int|value", "set " << ivalue << ", read back " << cmp->reset(0)->order() << (cmp->reset(0)->isOrderSet() ? "" : " (unset)") << "\n"
+            VP_CHECK(c, cmp->reset(0)->isOrderSet() && cmp->reset(0)->order() == ivalue, "C16.printer-roundtrip|" + tn + "|int|value" + loc, "set " << ivalue << ", read back " << cmp->reset(0)->order() << (cmp->reset(0)->isOrderSet() ? "" : " (unset)") << "\n"
                                                                                                                                                       << text);
         }
     } catch (const std::exception &e) {
         c.fail("C16.throw|printer-leg:" + tn + "|" + stage + "|" + typeName(e) + "|" + magnitude, typeName(e) + " escaped " + stage + " in the printer leg");
+    }
+}
+
+// ------------------------------------------------------------------------------------------------ e-notation cn in context
+// <cn type="e-notation">M<sep/>E</cn> as a plain operand, as the degree of a bvar, as the degree of a root, as a logbase
+// and as the exponent of a power, through Parser, Validator, Analyser and (for a valid analysis) Generator. Both parts
+// are fine one by one; the statement asks for the number they denote to be converted or reported as out of range.
+const char *const CN_CONTEXT[5] = {"operand", "bvar-degree", "root-degree", "logbase", "power-exponent"};
+const char *const CN_MANTISSA[4] = {"1", "-1", "9.9", "0"};
+const char *const CN_EXPONENT[8] = {"1", "999", "308", "-400", "309", "2147483647", "0", "-2147483648"};
+
+void cnContextCase(Case &c, int ctx, int mi, int ei)
+{
+    xmlKeepBlanksDefault(1);
+    errno = 0;
+    const std::string M = CN_MANTISSA[mi], E = CN_EXPONENT[ei], name = CN_CONTEXT[ctx];
+    const std::string cn = "<cn cellml:units=\"dimensionless\" type=\"e-notation\">" + M + "<sep/>" + E + "</cn>";
+    const std::string two = "<apply><eq/><ci>y</ci><cn cellml:units=\"dimensionless\">2</cn></apply>";
+    std::string eq;
+    switch (ctx) {
+    case 0: eq = "<apply><eq/><ci>x</ci>" + cn + "</apply>"; break;
+    case 1: eq = "<apply><eq/><apply><diff/><bvar><ci>t</ci><degree>" + cn + "</degree></bvar><ci>x</ci></apply><cn cellml:units=\"dimensionless\">1</cn></apply>"; break;
+    case 2: eq = "<apply><eq/><ci>x</ci><apply><root/><degree>" + cn + "</degree><ci>y</ci></apply></apply>" + two; break;
+    case 3: eq = "<apply><eq/><ci>x</ci><apply><log/><logbase>" + cn + "</logbase><ci>y</ci></apply></apply>" + two; break;
+    default: eq = "<apply><eq/><ci>x</ci><apply><power/><ci>y</ci>" + cn + "</apply></apply>" + two; break;
+    }
+    const std::string doc = std::string(HDR) + " <component name=\"c\"><variable name=\"t\" units=\"dimensionless\"/><variable name=\"x\" units=\"dimensionless\"" + (ctx == 1 ? " initial_value=\"0\"" : "") + "/><variable name=\"y\" units=\"dimensionless\"/>"
+                                              "<math xmlns=\"http://www.w3.org/1998/Math/MathML\" xmlns:cellml=\"http://www.cellml.org/cellml/2.0#\">"
+                            + eq + "</math></component>\n</model>\n";
+    const bool overflow = combinedOverflows(M, E);
+    c.text = "e-notation cn " + M + " x 10^" + E + " as " + name + " (" + (overflow ? "outside double" : "inside double") + ")\n" + doc;
+    c.hash = hashStr(c.text);
+    c.nontrivial = true;
+    c.cls("kind:cn-context");
+    c.cls("cn-context:" + name + (overflow ? ":combined-overflow" : ":in-range"));
+    c.count("cn_context_cases");
+    std::string stage = "Parser";
+    try {
+        auto parser = Parser::create(true);
+        ModelPtr m = parser->parseModel(doc);
+        VP_CHECK(c, m != nullptr && parser->issueCount() == 0, "C16.harness|cn-context|document-not-loaded", dumpIssues(parser));
+        stage = "Validator";
+        auto validator = Validator::create();
+        validator->validateModel(m);
+        int cites = 0, others = 0;
+        countIssues(validator, Issue::ReferenceRule::MATH_CN_FORMAT, cites, others);
+        stage = "Analyser";
+        auto analyser = Analyser::create();
+        analyser->analyseModel(m);
+        size_t analyserIssues = analyser->issueCount();
+        bool generated = false;
+        if (analyser->model() != nullptr && analyser->model()->isValid()) {
+            stage = "Generator";
+            auto generator = Generator::create();
+            generator->setModel(analyser->model());
+            generated = !generator->implementationCode().empty();
+        }
+        c.cls(std::string("cn-context-library:") + (cites > 0 ? "validator-reports" : (analyserIssues > 0 ? "analyser-reports" : (generated ? "code-generated" : "silent"))));
+        if (overflow) {
+            VP_CHECK(c, cites > 0, "C16.range-unreported|cn-context:" + name + "|combined-value",
+                     M << " x 10^" << E << " is outside double; the validator cites MATH_CN_FORMAT 0 times (" << others << " other issue(s)), the analyser reports " << analyserIssues << " issue(s)" << (generated ? ", code is generated" : "") << ": " << dumpIssues(analyser));
+        } else {
+            VP_CHECK(c, cites == 0, "C16.false-reject|cn-context:" + name, M << " x 10^" << E << " is inside double but the validator cites MATH_CN_FORMAT: " << dumpIssues(validator));
+        }
+    } catch (const std::exception &e) {
+        c.fail("C16.throw|cn-context:" + name + "|" + stage + "|" + typeName(e), typeName(e) + " escaped " + stage);
     }
 }
 
@@ -1594,13 +1747,20 @@ void run(Src &src, Case &c)
         break;
     }
     case 1: {
-        int target = static_cast<int>(src.below(3));
-        if (target < 2) {
+        int target = static_cast<int>(src.below(4));
+        if (target == 3) {
+            int ctx = static_cast<int>(src.below(5));
+            int mi = static_cast<int>(src.below(ex ? 2 : 4));
+            int ei = static_cast<int>(src.below(ex ? 4 : 8));
+            cnContextCase(c, ctx, mi, ei);
+        } else if (target < 2) {
             const auto &t = printerTable();
-            printerCase(c, "printer-table", target, t[static_cast<size_t>(src.below(t.size()))], 0);
+            double v = t[static_cast<size_t>(src.below(t.size()))];
+            printerCase(c, "printer-table", target, v, 0, src.below(2) == 1);
         } else {
             const auto &t = orderTable();
-            printerCase(c, "printer-table", target, 0.0, t[static_cast<size_t>(src.below(t.size()))]);
+            int v = t[static_cast<size_t>(src.below(t.size()))];
+            printerCase(c, "printer-table", target, 0.0, v, src.below(2) == 1);
         }
         break;
     }
@@ -1632,7 +1792,7 @@ void run(Src &src, Case &c)
         int target = static_cast<int>(src.below(3));
         uint64_t hi = src.below(1ULL << 32), lo = src.below(1ULL << 32);
         if (target == 2) {
-            printerCase(c, "printer-random-int", target, 0.0, static_cast<int>(static_cast<uint32_t>(hi ^ (lo << 7))));
+            printerCase(c, "printer-random-int", target, 0.0, static_cast<int>(static_cast<uint32_t>(hi ^ (lo << 7))), src.below(4) == 3);
             break;
         }
         uint64_t bits = (hi << 32) | lo;
@@ -1642,12 +1802,13 @@ void run(Src &src, Case &c)
         }
         double v;
         memcpy(&v, &bits, sizeof v);
-        printerCase(c, "printer-random-bits", target, v, 0);
+        printerCase(c, "printer-random-bits", target, v, 0, src.below(4) == 3);
         break;
     }
     default: {
         int target = static_cast<int>(src.below(2));
-        printerCase(c, "printer-random-decimal", target, genDecimal(src), 0);
+        double v = genDecimal(src);
+        printerCase(c, "printer-random-decimal", target, v, 0, src.below(4) == 3);
         break;
     }
     }
@@ -1692,6 +1853,8 @@ Property property = {
     "Exhaustive stage: every string of length 0..L over the 10 symbols {0,1,9,+,-,.,e,E,blank,a} (x_exhaustive_space_bound<b> records L per position group and whether cn elements shared MathML blocks), plus a table of numbers through the printer. "
     "Random stage: strings up to 40 symbols (also all ten digits, hex/Fortran/locale/non-ASCII-digit symbols), near-misses of valid numbers (one insertion, deletion, extra point/exponent, inner sign, blanks around, plus sign, mantissa digits removed), "
     "extreme magnitudes, and finite doubles / ints (random bit patterns, random 1..15-digit decimals in 1e-300..1e300) set through the API as exponent / multiplier / order, printed, re-parsed strictly and compared to 15 significant digits. "
+    "An e-notation cn is judged by the number it denotes (significand x 10^exponent outside double must be reported), also as operand, bvar degree, root degree, logbase and power exponent through Parser, Validator, Analyser, Generator (kind cn-context). "
+    "The printer leg includes infinite and NaN exponents/multipliers (the validator must report them, else the printed document must re-parse) and printing while the global C++ locale has a decimal comma and digit grouping (numpunct facet). "
     "History: a string case may carry a history drawn from its own tape: 1..3 other documents / API models with underflowing, overflowing or beyond-int numeric texts go through Parser, Validator, Printer, Analyser, Generator first in the same process "
     "(range-error-before), or the placement's own document also contains such a text (same-document-range-error); the placements are then observed again and must agree with the fresh-state observation (errno cleared before every document) and with the reference. "
     "The exhaustive stage enumerates every string up to length 2 (3 when unbatched) with each of six histories and three same-document variants; every random-tier case is observed in a forked child so that no case inherits process state from an earlier one. "
@@ -1700,9 +1863,7 @@ Property property = {
     run,
     setMode,
     {"C locale (std::stod honours the C locale; the driver sets LC_ALL=C)", "libxml2 2.13.9 as linked by the baseline build",
-     "an empty prefix / initial_value attribute is the same object state as an absent one and is not judged",
      "cn text that is a real with an exponent part (not a basic real) is not judged in either direction: the code follows the specification (exponent only behind sep), the statement says 'cn content'",
-     "an out-of-range initial_value is kept as text by Parser/Validator (no conversion happens there) and only its recognition is judged",
      "strtod's ERANGE is the definition of 'out of range' for double: underflowing text may be either reported or converted to the nearest tiny double"},
     nullptr,
     extraEvidence,
